@@ -181,6 +181,9 @@ impl Nested {
     }
 }
 impl Group for Nested {
+    fn timing_sensitive(&self) -> bool {
+        true
+    }
     fn name(&self) -> &'static str {
         "c10.scn"
     }
